@@ -20,6 +20,7 @@ type leaseCut struct {
 	probed    bool
 	cancelled bool
 	term      uint64
+	voters    map[string]bool // voters of the leader's latest configuration when the cut took effect (filled lazily)
 }
 
 type isoRec struct {
@@ -519,6 +520,14 @@ func (r *Runner) sampleProfile() {
 			lc.cancelled = true // healed before the bound: nothing to claim
 			continue
 		}
+		if lc.voters == nil {
+			lc.voters = map[string]bool{}
+			for _, s := range r.cfgOf(lc.in).Servers {
+				if s.Suffrage == raft.Voter {
+					lc.voters[string(s.ID)] = true
+				}
+			}
+		}
 		st := lc.in.R.State()
 		bound := lc.t0 + int64(2*lc.lease/time.Millisecond) + 10 + 2
 		if lc.steppedAt == 0 {
@@ -526,7 +535,16 @@ func (r *Runner) sampleProfile() {
 				lc.steppedAt = now
 				r.feat("lease-stepdown")
 			} else if now > bound {
-				w.Violate("C13", "R1", "C13/R1/isolated-leader-keeps-leadership-beyond-twice-the-lease",
+				sig := "C13/R1/isolated-leader-keeps-leadership-beyond-twice-the-lease"
+				// a voter added by the cut-off leader itself counts as "contacted"
+				// for one lease from the moment it is added (replication state is
+				// created with lastContact = now): told apart, it is a known finding
+				for _, s := range r.cfgOf(lc.in).Servers {
+					if s.Suffrage == raft.Voter && lc.voters != nil && !lc.voters[string(s.ID)] {
+						sig = "C13/R1/cut-off-leader-that-adds-a-voter-counts-it-as-contacted-for-one-more-lease"
+					}
+				}
+				w.Violate("C13", "R1", sig,
 					"%s lost its voter majority at %d ms (lease %v) and is still Leader at %d ms (bound %d ms)", lc.in.ID(), lc.t0, lc.lease, now, bound)
 				lc.steppedAt = now
 			}
@@ -791,6 +809,9 @@ func (r *Runner) finalProfile() {
 		}
 		if name == "GetConfiguration" {
 			continue // answered from a local copy, documented not to need the main loop
+		}
+		if op.err == raft.ErrUnsupportedProtocol {
+			continue // refused before it reaches any queue: the server runs an older protocol version
 		}
 		if op.err != raft.ErrRaftShutdown {
 			w.ViolateLocked("C17", "R2", "C17/R2/"+name+"-after-shutdown-does-not-report-shutdown", "%s on %s after Shutdown().Error() returned: %v (want ErrRaftShutdown)", name, op.Srv, op.err)
